@@ -9,7 +9,9 @@ import (
 	"fmt"
 	"io"
 	"math/rand"
+	"mime"
 	"mime/multipart"
+	"net/textproto"
 	"net/http"
 	"net/http/httptest"
 	"sort"
@@ -66,6 +68,18 @@ type c04In struct {
 	Kind     string `json:"kind,omitempty"`     // "hdr": one header parameter named HName with value H (any bytes), sent in process; the line on the wire is observed
 	HName    string `json:"h_name,omitempty"`   // declared name of the header parameter (default X-H)
 	Par      []c04In `json:"par,omitempty"`     // kind par: these calls are submitted at the same time, each against its own server
+	// kind "mp": POST with a multipart body (form field f1 = F1, file up = File after FileSkip, any bytes); the document on the wire is observed.
+	// kind "mpread": the document the real multipart.Writer renders from MpParts with boundary MpBoundary, changed by MpMut, is read by the real multipart.Reader.
+	MpBoundary string      `json:"mp_boundary,omitempty"`
+	MpParts    []c04MpPart `json:"mp_parts,omitempty"`
+	MpMut      string      `json:"mp_mut,omitempty"` // "" | trunc | lf | lf-first | preamble | junk-before | pad | noeol | epilogue | one-dash | no-final | slow
+	MpPos      int         `json:"mp_pos,omitempty"`
+}
+
+// c04MpPart is one part handed to the real multipart.Writer: header fields (distinct names) and content.
+type c04MpPart struct {
+	H [][2]string `json:"h"`
+	C Bs          `json:"c"`
 }
 
 // c04Step is one call of a history: operation 0 is GET <prefix>/{p1}, operation 1 is GET <prefix>/{p1}/{p2}.
@@ -86,6 +100,11 @@ type c04Obs struct {
 	SeqObs []c04StepObs `json:"seq_obs,omitempty"`
 	ParObs []c04Obs     `json:"par_obs,omitempty"`
 	WireHead Bs         `json:"wire_head,omitempty"` // kind hdr: the serialised request head
+	MpDoc      Bs       `json:"mp_doc,omitempty"`      // kind mp: the request body as the server got it (only when at most 20 kB); kind mpread: the document read
+	MpBoundary Bs       `json:"mp_boundary,omitempty"` // kind mp: the boundary parameter of the Content-Type the server got
+	MpSeen     bool     `json:"mp_seen,omitempty"`     // kind mp: the body was captured
+	MpReadOK   bool     `json:"mp_read_ok,omitempty"`  // kind mpread: the real Reader reached the end without an error
+	MpRead     []Bs     `json:"mp_read,omitempty"`     // kind mpread: the contents of the parts it returned
 	Signed Bs           `json:"signed,omitempty"` // what GetBody() gave the signing auth writer
 	SignCalled bool     `json:"sign_called,omitempty"`
 	Panicked  bool   `json:"panicked,omitempty"`
@@ -110,7 +129,7 @@ func (c04) CoqModule() string { return "Check_C04" }
 func (c04) Rule() string {
 	return "operations from 5 templates x 4 base paths x {POST,PUT,GET} x body kinds {none, urlencoded form, multipart with file, json} x produces {json,text}; " +
 		"values drawn from a corpus of hostile strings (slash, percent, plus, space, question mark, hash, colon, star, braces, quotes, non-ASCII, backslash, CR/LF-free header values) and random bytes; " +
-		"int64 boundary values; repeated query/form values; file contents of length 0..5000; with/without client auth writer (header-only or a signing one that reads GetBody first); json bodies produced, or streamed as io.Reader / io.ReadCloser; histories of calls on one server; 4-8 uploads of 40 kB..3 MiB in flight at the same time (compared by digest). Non-trivial: at least one supplied value contains a byte outside [A-Za-z0-9]."
+		"int64 boundary values; repeated query/form values; file contents of length 0..5000; with/without client auth writer (header-only or a signing one that reads GetBody first); json bodies produced, or streamed as io.Reader / io.ReadCloser; histories of calls on one server; 4-8 uploads of 40 kB..3 MiB in flight at the same time (compared by digest); multipart framing (1 case in 10): the body on the wire against the model writer and reader, field and file contents empty, CR/LF heavy, with dashes, with line end + dashes + a prefix of / a full-length boundary look-alike, starting like a delimiter line, ending in a piece of a delimiter, lengths around 512 and 4096, binary; the model reader against the real multipart.Reader (1 case in 20) on 0-3 parts written by the real Writer with seven boundaries, contents containing the real delimiter followed by every kind of byte, as written or damaged (cut, bare LF line ends, preamble, padding, no final line end, epilogue, one dash, no closing delimiter, one byte at a time). Non-trivial: at least one supplied value contains a byte outside [A-Za-z0-9]."
 }
 
 func (c04) Decode(raw json.RawMessage) (any, error) {
@@ -178,6 +197,17 @@ func (c04) Gen(r *rand.Rand, tier string, i int) any {
 	if i%10 == 8 { // one header parameter; the line on the wire is compared with the model's writer and reader
 		return c04In{Kind: "hdr", Method: "GET", Template: "/r/{p1}", P1: "a", Body: "none", Produces: "json", RespBody: "ok", RespHdr: "h",
 			HasH: true, HName: c04HNames[r.Intn(len(c04HNames))], H: c04HdrVal(r)}
+	}
+	if i%10 == 6 { // multipart framing: the document on the wire is compared with the model's writer and reader
+		in := c04In{Kind: "mp", Method: "POST", Template: "/r/{p1}", P1: "a", Body: "multipart", Produces: "json", RespBody: "ok", RespHdr: "h",
+			FileName: "f.bin", F1: c04MpVal(r, 300), File: c04MpVal(r, 5000)}
+		if r.Intn(4) == 0 && len(in.File) > 0 {
+			in.FileSkip = 1 + r.Intn(len(in.File))
+		}
+		return in
+	}
+	if i%20 == 5 { // the model reader against the real multipart.Reader on documents with delimiter look-alikes and damage
+		return c04GenMpRead(r)
 	}
 	if i%10 == 9 {
 		in := c04In{BasePath: c04Bases[r.Intn(len(c04Bases))], Method: "GET", Template: []string{"/files", "/a/b", "/r"}[r.Intn(3)], Produces: "json"}
@@ -251,6 +281,212 @@ func (c04) Gen(r *rand.Rand, tier string, i int) any {
 		in.FileSkip = 1 + r.Intn(len(in.File)) // a seekable source handed over after a prefix was read
 	}
 	return in
+}
+
+const c04Hex = "0123456789abcdef"
+
+func c04RandHex(r *rand.Rand, n int) string {
+	b := make([]byte, n)
+	for i := range b {
+		b[i] = c04Hex[r.Intn(16)]
+	}
+	return string(b)
+}
+
+func c04RandOver(r *rand.Rand, alpha string, n int) string {
+	b := make([]byte, n)
+	for i := range b {
+		b[i] = alpha[r.Intn(len(alpha))]
+	}
+	return string(b)
+}
+
+func c04RandBin(r *rand.Rand, n int) string {
+	b := make([]byte, n)
+	for i := range b {
+		b[i] = byte(r.Intn(256))
+	}
+	return string(b)
+}
+
+// c04MpVal draws a form value or file content for the multipart framing cases: the bytes the framing is sensitive to.
+// (The writer's boundary is 60 random hex digits, unknown here: these are look-alikes, not collisions.) big bounds the long ones.
+func c04MpVal(r *rand.Rand, big int) Bs {
+	switch r.Intn(12) {
+	case 0:
+		return ""
+	case 1: // CR and LF heavy
+		return Bs(c04RandOver(r, "\r\n\r\n-ab", r.Intn(40)))
+	case 2: // dashes
+		return Bs(c04RandOver(r, "--x", 1+r.Intn(12)) + "--" + c04RandOver(r, "-\r\ny", r.Intn(6)))
+	case 3: // line end, two dashes, a prefix of a plausible boundary
+		return Bs(c04RandOver(r, "ab", r.Intn(4)) + "\r\n--" + c04RandHex(r, r.Intn(60)) + c04RandOver(r, "\r\n- z", r.Intn(5)))
+	case 4: // line end, two dashes, boundary-like hex of full length, then what would end a delimiter line
+		return Bs(c04RandOver(r, "ab", r.Intn(4)) + "\r\n--" + c04RandHex(r, 60) + []string{"", "--", "\r\n", "--\r\n", " \r\n", "x"}[r.Intn(6)] + c04RandOver(r, "ab\r\n", r.Intn(4)))
+	case 5: // starts like a delimiter line
+		return Bs("--" + c04RandHex(r, []int{0, 1, 30, 60}[r.Intn(4)]) + []string{"", "\r\n", "--\r\n"}[r.Intn(3)] + c04RandOver(r, "ab", r.Intn(3)))
+	case 6: // ends in a piece of a delimiter
+		return Bs(c04RandOver(r, "abc", r.Intn(5)) + []string{"\r", "\r\n", "\r\n-", "\r\n--", "\n", "\r\r", "\r\n--" + c04RandHex(r, 8)}[r.Intn(7)])
+	case 7: // a whole look-alike document inside the value
+		return Bs("x\r\n--" + c04RandHex(r, 60) + "\r\nContent-Disposition: form-data; name=\"f1\"\r\n\r\ninjected\r\n--" + c04RandHex(r, 60) + "--\r\n")
+	case 8: // lengths around the block sizes of the writer (512-byte sniffing) and of the reader (4096-byte peek buffer)
+		n := []int{511, 512, 513, 1024, 3890, 3950, 4000, 4050, 4096, 4097, 4200}[r.Intn(11)] + r.Intn(3) - 1
+		if n > big {
+			n = big/2 + r.Intn(big/2)
+		}
+		return Bs(c04RandOver(r, "\r\n-a", n))
+	case 9:
+		n := 1 + r.Intn(600)
+		if n > big {
+			n = big
+		}
+		return Bs(c04RandBin(r, n))
+	case 10: // only line ends
+		return Bs(strings.Repeat("\r\n", r.Intn(4)) + []string{"", "\r", "\n"}[r.Intn(3)])
+	}
+	return Bs(c04RandBin(r, 1+r.Intn(12)))
+}
+
+var c04MpBoundaries = []string{"B", "abc123", "x-y", "a b", "0123456789abcdef0123456789abcdef0123456789abcdef0123456789ab", "--", "q'()+_,-./:=?z"}
+
+// c04GenMpRead: parts whose contents contain the real boundary in every position that matters, then one kind of damage.
+func c04GenMpRead(r *rand.Rand) c04In {
+	b := c04MpBoundaries[r.Intn(len(c04MpBoundaries))]
+	in := c04In{Kind: "mpread", MpBoundary: b}
+	content := func() Bs {
+		after := []string{"", "\r\n", "--", "--\r\n", " \t\r\n", "-", "-x", "x", "\n", "\r", " x\r\n", "\t", "--  \r\n"}[r.Intn(13)]
+		tail := []string{"", "k: v\r\n\r\nw", "y", "\r\n"}[r.Intn(4)]
+		switch r.Intn(8) {
+		case 0:
+			return Bs(c04RandOver(r, "ab\r\n-", r.Intn(6)) + "\r\n--" + b + after + tail)
+		case 1:
+			return Bs("--" + b + after + tail)
+		case 2:
+			return Bs(c04RandOver(r, "ab", r.Intn(3)) + "\n--" + b + after + tail)
+		case 3:
+			return Bs(c04RandOver(r, "ab", r.Intn(3)) + "\r\n--" + b[:r.Intn(len(b)+1)] + c04RandOver(r, "\r\n-", r.Intn(4)))
+		case 4:
+			return Bs("\r\n--" + b + "x\r\n--" + b + after + tail)
+		case 5:
+			return Bs(c04RandOver(r, "\r\n-a", 4060+r.Intn(70)) + "\r\n--" + b + after + tail)
+		case 6:
+			return ""
+		}
+		return c04MpVal(r, 300)
+	}
+	hdrs := [][][2]string{
+		{{"Content-Disposition", "form-data; name=\"a\""}},
+		{{"Content-Disposition", "form-data; name=\"up\"; filename=\"f.bin\""}, {"Content-Type", "application/octet-stream"}},
+		{},
+		{{"Content-Disposition", "form-data; name=\"a\""}, {"X-Extra", "1"}},
+	}
+	for k := []int{0, 1, 1, 2, 2, 3}[r.Intn(6)]; k > 0; k-- {
+		in.MpParts = append(in.MpParts, c04MpPart{H: hdrs[r.Intn(len(hdrs))], C: content()})
+	}
+	in.MpMut = []string{"", "", "", "trunc", "lf", "lf-first", "preamble", "junk-before", "pad", "noeol", "epilogue", "one-dash", "no-final", "slow"}[r.Intn(14)]
+	in.MpPos = r.Intn(1 << 16)
+	return in
+}
+
+// c04MpHeaderBlock is the text of the header lines the Writer emits for a part (names sorted, as CreatePart does).
+func c04MpHeaderBlock(h [][2]string) string {
+	hs := append([][2]string(nil), h...)
+	sort.Slice(hs, func(i, j int) bool { return hs[i][0] < hs[j][0] })
+	var sb strings.Builder
+	for _, kv := range hs {
+		sb.WriteString(kv[0] + ": " + kv[1] + "\r\n")
+	}
+	return sb.String()
+}
+
+type c04SlowReader struct{ r io.Reader }
+
+func (s c04SlowReader) Read(p []byte) (int, error) {
+	if len(p) > 1 {
+		p = p[:1]
+	}
+	return s.r.Read(p)
+}
+
+// c04RunMpRead: the real Writer renders the parts, the document is damaged as MpMut says, the real Reader reads it as
+// ReadForm does (NextPart, each part to its end).
+func c04RunMpRead(in c04In, obs *c04Obs) {
+	var buf bytes.Buffer
+	w := multipart.NewWriter(&buf)
+	if err := w.SetBoundary(in.MpBoundary); err != nil {
+		panic("boundary: " + err.Error())
+	}
+	for _, p := range in.MpParts {
+		h := textproto.MIMEHeader{}
+		for _, kv := range p.H {
+			h[kv[0]] = []string{kv[1]}
+		}
+		pw, err := w.CreatePart(h)
+		if err != nil {
+			panic(err)
+		}
+		if _, err := pw.Write([]byte(p.C)); err != nil {
+			panic(err)
+		}
+	}
+	if err := w.Close(); err != nil {
+		panic(err)
+	}
+	doc := buf.String()
+	first := "--" + in.MpBoundary + "\r\n"
+	final := "\r\n--" + in.MpBoundary + "--\r\n"
+	switch in.MpMut {
+	case "trunc": // cut inside the last part's content or the closing delimiter (never inside a header block)
+		lo := len(doc) - len(final)
+		if n := len(in.MpParts); n > 0 && !strings.Contains(string(in.MpParts[n-1].C), "--"+in.MpBoundary) { // a content with a delimiter in it may hold header lines
+			lo -= len(in.MpParts[n-1].C)
+		}
+		doc = doc[:lo+in.MpPos%(len(doc)-lo)]
+	case "lf":
+		doc = strings.ReplaceAll(doc, "\r\n", "\n")
+	case "lf-first":
+		if strings.HasPrefix(doc, first) {
+			doc = "--" + in.MpBoundary + "\n" + doc[len(first):]
+		}
+	case "preamble":
+		doc = "this is a preamble\r\n--" + in.MpBoundary + "x\r\n\r\nstill preamble\r\n" + doc
+	case "junk-before":
+		doc = "junk" + doc
+	case "pad":
+		if strings.HasPrefix(doc, first) {
+			doc = "--" + in.MpBoundary + " \t \r\n" + doc[len(first):]
+		}
+		doc = strings.TrimSuffix(doc, "--\r\n") + "--\t \r\n"
+	case "noeol":
+		doc = strings.TrimSuffix(doc, "\r\n")
+	case "epilogue":
+		doc += "epilogue\r\n--" + in.MpBoundary + "\r\n"
+	case "one-dash":
+		doc = strings.TrimSuffix(doc, "-\r\n") + "\r\n"
+	case "no-final":
+		doc = strings.TrimSuffix(doc, final)
+	}
+	obs.MpDoc = Bs(doc)
+	var src io.Reader = strings.NewReader(doc)
+	if in.MpMut == "slow" {
+		src = c04SlowReader{src}
+	}
+	mr := multipart.NewReader(src, in.MpBoundary)
+	for {
+		p, err := mr.NextPart()
+		if err == io.EOF {
+			obs.MpReadOK = true
+			return
+		}
+		if err != nil {
+			return
+		}
+		c, err := io.ReadAll(p)
+		if err != nil {
+			return
+		}
+		obs.MpRead = append(obs.MpRead, Bs(c))
+	}
 }
 
 func c04HName(in c04In) string {
@@ -348,7 +584,12 @@ type c04Seekable struct {
 func (c04Seekable) Close() error   { return nil }
 func (f c04Seekable) Name() string { return f.name }
 
-type c04Transport struct{ h http.Handler; target *Bs; head *Bs }
+type c04Transport struct {
+	h      http.Handler
+	target *Bs
+	head   *Bs
+	mp     *c04Obs // kind mp: the body and its boundary are captured here
+}
 
 func (t c04Transport) RoundTrip(req *http.Request) (*http.Response, error) {
 	var buf bytes.Buffer
@@ -366,6 +607,16 @@ func (t c04Transport) RoundTrip(req *http.Request) (*http.Response, error) {
 	sreq, err := http.ReadRequest(bufio.NewReader(&buf))
 	if err != nil {
 		return nil, fmt.Errorf("server could not parse the request: %w", err)
+	}
+	if t.mp != nil { // the body as the server reads it (transfer coding already removed)
+		b, rerr := io.ReadAll(sreq.Body)
+		if rerr != nil {
+			return nil, fmt.Errorf("server could not read the request body: %w", rerr)
+		}
+		sreq.Body = io.NopCloser(bytes.NewReader(b))
+		if _, params, perr := mime.ParseMediaType(sreq.Header.Get("Content-Type")); perr == nil && len(b) <= 20000 {
+			t.mp.MpDoc, t.mp.MpBoundary, t.mp.MpSeen = Bs(b), Bs(params["boundary"]), true
+		}
 	}
 	rec := httptest.NewRecorder()
 	t.h.ServeHTTP(rec, sreq)
@@ -435,7 +686,7 @@ func c04RunSeq(in c04In, obs *c04Obs) {
 		so := c04StepObs{RanOp: -1}
 		cur = &so
 		rt := client.New("example.test", in.BasePath, []string{"http"})
-		rt.Transport = c04Transport{h, &tgt, nil}
+		rt.Transport = c04Transport{h: h, target: &tgt}
 		pattern := in.Template + "/{p1}"
 		if st.Op == 1 {
 			pattern = in.Template + "/{p1}/{p2}"
@@ -512,6 +763,10 @@ func c04RunOne(in c04In) c04Obs {
 		obs.Panicked, obs.Panic = recoverTo(func() { c04RunSeq(in, &obs) })
 		return obs
 	}
+	if in.Kind == "mpread" {
+		obs.Panicked, obs.Panic = recoverTo(func() { c04RunMpRead(in, &obs) })
+		return obs
+	}
 	obs.Panicked, obs.Panic = recoverTo(func() {
 		spec, err := loads.Analyzed(json.RawMessage(c04Spec(in)), "")
 		if err != nil {
@@ -579,9 +834,12 @@ func c04RunOne(in c04In) c04Obs {
 			defer srv.Close()
 			rt = client.New(srv.Listener.Addr().String(), in.BasePath, []string{"http"})
 		} else {
-			rt.Transport = c04Transport{h, &obs.Target, nil}
+			rt.Transport = c04Transport{h: h, target: &obs.Target}
 			if in.Kind == "hdr" {
-				rt.Transport = c04Transport{h, &obs.Target, &obs.WireHead}
+				rt.Transport = c04Transport{h: h, target: &obs.Target, head: &obs.WireHead}
+			}
+			if in.Kind == "mp" {
+				rt.Transport = c04Transport{h: h, target: &obs.Target, mp: &obs}
 			}
 		}
 		rt.Consumers["text/plain"] = runtime.TextConsumer()
@@ -780,6 +1038,29 @@ func (c04) Coq(inAny any, obsAny any) string {
 		return fmt.Sprintf("CHdrWire %s %s %s %s %s %s %s", coqBytes(c04HName(in)), coqBytes(string(in.H)), coqBytes(string(line)), coqBytes(string(next)),
 			coqBool(obs.Panicked || obs.SubmitErr != ""), coqBool(obs.Ran), coqBytes(string(recv)))
 	}
+	if in.Kind == "mp" {
+		one := func(k string) Bs { // an absent value is the empty byte string
+			if v := obs.Recv[k]; len(v) == 1 {
+				return v[0]
+			}
+			return ""
+		}
+		skip := in.FileSkip
+		if skip > len(in.File) {
+			skip = len(in.File)
+		}
+		return fmt.Sprintf("CMultipart %s %s %s %s %s %s %s %s %s %s",
+			coqBytes(string(obs.MpBoundary)), coqBytes(string(obs.MpDoc)),
+			coqBytes("Content-Disposition: form-data; name=\"f1\"\r\n"), coqBytes("Content-Disposition: form-data; name=\"up\"; filename=\""),
+			coqBytes(string(in.F1)), coqBytes(string(in.File[skip:])),
+			coqBool(obs.Panicked || obs.SubmitErr != "" || !obs.MpSeen), coqBool(obs.Ran),
+			coqBytes(string(one("f1"))), coqBytes(string(one("up"))))
+	}
+	if in.Kind == "mpread" {
+		sup := coqList(in.MpParts, func(p c04MpPart) string { return coqPair(coqBytes(c04MpHeaderBlock(p.H)), coqBytes(string(p.C))) })
+		return fmt.Sprintf("CMpRead %s %s %s %s %s %s", coqBool(obs.Panicked), coqBytes(in.MpBoundary), coqBytes(string(obs.MpDoc)),
+			coqBool(in.MpMut != "" && in.MpMut != "slow"), sup, coqOpt(obs.MpReadOK, coqBytesList(bsList(obs.MpRead))))
+	}
 	if len(in.Par) > 0 {
 		steps := make([]string, 0, len(in.Par))
 		for i, sub := range in.Par {
@@ -870,6 +1151,48 @@ func (c04) Category(inAny any, obsAny any) (string, bool) {
 			cls = "empty"
 		}
 		return "header-wire/" + cls, true
+	}
+	if in.Kind == "mp" {
+		cls := func(v string) string {
+			switch {
+			case v == "":
+				return "empty"
+			case len(v) >= 3800:
+				return "around-4096"
+			case len(v) >= 500:
+				return "around-512"
+			case strings.Contains(v, "\r\n--") && len(v) >= 64:
+				return "line-end-dashes-hex60"
+			case strings.Contains(v, "\r\n--"):
+				return "line-end-dashes-prefix"
+			case strings.HasPrefix(v, "--"):
+				return "starts-with-dashes"
+			case strings.HasSuffix(v, "\r") || strings.HasSuffix(v, "\n"):
+				return "ends-in-CR-or-LF"
+			case strings.ContainsAny(v, "\r\n"):
+				return "CR-LF-inside"
+			case strings.Contains(v, "--"):
+				return "dashes"
+			}
+			return "other-bytes"
+		}
+		skip := in.FileSkip
+		if skip > len(in.File) {
+			skip = len(in.File)
+		}
+		return "multipart-wire/f1:" + cls(string(in.F1)) + "/file:" + cls(string(in.File[skip:])), true
+	}
+	if in.Kind == "mpread" {
+		obs := obsAny.(c04Obs)
+		m := in.MpMut
+		if m == "" {
+			m = "as-written"
+		}
+		res := "refused"
+		if obs.MpReadOK {
+			res = fmt.Sprintf("read-%d-parts", len(obs.MpRead))
+		}
+		return fmt.Sprintf("multipart-reader/%d-parts-written/%s/%s", len(in.MpParts), m, res), true
 	}
 	if len(in.Seq) > 0 {
 		return fmt.Sprintf("history/%d-calls-one-server", len(in.Seq)), true
